@@ -189,7 +189,7 @@ func runServer(c *fw.Ctx) {
 	race := c.Leg == "server-race"
 	r0 := c.Rand("server-env")
 	var e *srvEnv
-	c.Case("server-setup", map[string]string{"what": "p2p.Server + aqua protocol manager on loopback"}, func() {
+	setupCase(c, "server-setup", map[string]string{"what": "p2p.Server + aqua protocol manager on loopback"}, func() {
 		var err error
 		e, err = newSrvEnv(r0)
 		if err != nil {
@@ -213,7 +213,7 @@ func runServer(c *fw.Ctx) {
 	}()
 	// warm-up with one honest peer, then take the baselines
 	warm := false
-	c.Case("server-warmup", map[string]string{"what": "one well-behaved peer"}, func() {
+	setupCase(c, "server-warmup", map[string]string{"what": "one well-behaved peer"}, func() {
 		w, stage := e.fullPeer(c, r0, 5)
 		if stage != "" {
 			c.Note("warm-up failed at %s", stage)
@@ -311,8 +311,7 @@ func runServer(c *fw.Ctx) {
 				_, err := w.hello(hc.mk(w.key))
 				// whatever the hello, the server must either add the peer or end the connection
 				if err == nil {
-					w.conn.SetReadDeadline(time.Now().Add(60 * time.Second))
-					w.readUntil(func(uint64, []byte) bool { return false }, 4)
+					w.readUntil(func(uint64, []byte) bool { return false }, 1)
 				}
 			})
 		}
